@@ -15,7 +15,7 @@ RULE = ("histories = prior directory state x injected fault x (clean start | sec
         "state a crash leaves behind. Faults: process abort at each named cfg(anything_verif) crash point (the CRASHPOINT marker and SIGABRT "
         "are checked; an unreached point is recorded as such and the run counts as a clean start), and kill -9 injected by strace at EVERY "
         "openat/write/rename/fdatasync/unlink/mkdir call of a rebuild (counted per thread on a traced clean start; quick: from three prior states, thorough: from all, plus double kills); an injected I/O error (ENOSPC, EIO, "
-        "EACCES) at every write/fdatasync/rename/openat/mkdir/unlink call instead of a crash (release build, where the shipped data is embedded); two instances "
+        "EACCES) at every write/fdatasync/rename/openat/mkdir/unlink call instead of a crash (release build, where the shipped data is embedded); a crash, then damage from outside (index directory or meta.json deleted / scribbled over), then another crash; two instances "
         "started at once (the second while the first holds the writer lock; the first finishes or is killed). After EVERY process exit an independent tantivy reader checks the invariant `meta.json "
         "names this version and data hash => the index holds exactly the shipped payloads`; after every clean start the probe answers must "
         "equal those of a fresh in-memory database and meta.json must be current. non-trivial = distinct history (state, faults)")
@@ -207,6 +207,9 @@ def states(ctx):
     S["meta-wrong-shape-array"] = st_meta(b"[1, 2, 3]")
     S["meta-wrong-shape-types"] = st_meta(b'{"version": 5, "database_hash": ["x"]}')
     S["meta-empty-object"] = st_meta(b"{}")
+    S["meta-version-only"] = st_meta(lambda ctx: json.dumps({"version": ctx["version"]}).encode())
+    S["meta-hash-null"] = st_meta(lambda ctx: json.dumps({"version": ctx["version"], "database_hash": None}).encode())
+    S["meta-hash-only"] = st_meta(lambda ctx: json.dumps({"database_hash": ctx["hash"]}).encode())
     S["index-missing"] = st_index("missing")
     S["index-empty"] = st_index("empty")
     S["index-no-tantivy-meta"] = st_index("no-tantivy-meta")
@@ -234,6 +237,28 @@ def shard(p):
                 for fault in h["faults"]:
                     prefix = None
                     crash = fault
+                    if fault.startswith("damage:"):
+                        # something outside the tool changes the directory between two starts (the index directory is deleted,
+                        # meta.json is lost or scribbled over): from here on the invariant is only judged again if it still holds
+                        kind = fault.split(":", 1)[1]
+                        idx, mp = os.path.join(home, "facts", "index"), _meta_path(home)
+                        try:
+                            if kind == "index-missing":
+                                shutil.rmtree(idx, ignore_errors=True)
+                            elif kind == "index-empty":
+                                shutil.rmtree(idx, ignore_errors=True)
+                                os.makedirs(idx, exist_ok=True)
+                            elif kind == "index-no-tantivy-meta":
+                                os.unlink(os.path.join(idx, "meta.json"))
+                            elif kind == "meta-missing":
+                                os.unlink(mp)
+                            elif kind == "meta-garbage":
+                                open(mp, "wb").write(b"\x00\xff not json")
+                        except OSError:
+                            pass
+                        acc.count("damage:" + kind)
+                        prior_ok = check_invariant(acc, ctx, insp, home, h, "damage", judge=False) is not None
+                        continue
                     if fault.startswith("concurrent"):
                         concurrent_start(acc, ctx, home, h, kill_first=fault.endswith("kill"))
                         if prior_ok:
@@ -402,7 +427,7 @@ def run(tier, seed):
             hs.append({"state": s, "faults": [], "second_clean": True})
             for c in CRASHPOINTS:
                 hs.append({"state": s, "faults": [c]})
-        n_double = 700 if tier == "quick" else 0
+        n_double = 500 if tier == "quick" else 0
         doubles = [{"state": s, "faults": [c1, c2]} for s in snames for c1 in CRASHPOINTS for c2 in CRASHPOINTS]
         sweep_states = ["absent", "other-data-same-size-old-hash", "index-missing"] if tier == "quick" else snames
         sweep_counts = {}
@@ -421,6 +446,10 @@ def run(tier, seed):
                         continue
                     for e in errs:
                         hs.append({"state": s, "faults": ["errinj:%s:%s:%d" % (call, e, n)], "second_clean": True})
+        # crash, outside damage, crash: the second start meets what the first one left plus a directory somebody tampered with
+        DAMAGE = ["damage:index-missing", "damage:index-empty", "damage:index-no-tantivy-meta", "damage:meta-missing", "damage:meta-garbage"]
+        for _ in range(600 if tier == "quick" else 6000):
+            hs.append({"state": rng.choice(snames), "faults": [rng.choice(CRASHPOINTS), rng.choice(DAMAGE), rng.choice(CRASHPOINTS)], "second_clean": True})
         for s in snames:
             hs.append({"state": s, "faults": ["concurrent"]})
             hs.append({"state": s, "faults": ["concurrent-kill"]})
